@@ -46,7 +46,8 @@ def seg(rng, cls, ivals, fvals):
         return "C%s,S,%s" % (h(sp), h(rng.choice(STRS)))
     if cls == "ptr": return "C%s,P,1" % h("%p")
     if cls == "show":
-        k = rng.choice("IFSNYIFSZ")
+        k = rng.choice("IFSNYIFSZC")
+        if k == "C": return "WC,%d" % rng.randint(0, 99999)            # a user type with a Show instance and a ShowHex instance (listed first)
         if k == "Z": return "WZ,0"                                   # NULL: shown as <NULL>
         if k == "Y": return "WY,%s" % rng.choice(["Int", "Float", "String", "Array", "Table", "Tuple", "Type", "File", "Function"])     # a Type object
         if k == "N": return "WN,%d" % rng.randint(-9, 99)          # a type without a Show instance (generic fallback text)
@@ -149,7 +150,8 @@ def round_execs(rng, quick):
     fv = []
     for e in range(-300, 300, 1):             # every decade: the shown text takes every length up to 300+ characters
         fv += [fbits(rng.uniform(1, 10) * 10.0 ** e), fbits(-rng.uniform(1, 10) * 10.0 ** e)]
-    fv += [fbits(x) for x in (0.0, 1.0, -1.0, 0.5, 123456.789012, 1e15 + 0.3, 2.5e-7, 1.7976931348623157e308, 5e-324)]
+    fv += [fbits(x) for x in (0.0, 1.0, -1.0, 0.5, 123456.789012, 1e15 + 0.3, 2.5e-7, 1.7976931348623157e308, 5e-324,
+                              -1.7976931348623157e308, -1e308, 1e308, -9.99e307, -5e-324)]          # (the longest shown texts: 317 characters)
     strs = [b"%", b"%%", b"%d %s", b"100%\n", b"", b"a", b'"', b"\\", b"a\nb", b"\a\b\f\n\r\t\v", b"'?", b"\x80\xfe\xff", b"mixed \"q\" \\ \t end", b"\\n"]
     strs += [bytes(rng.randint(1, 255) for _ in range(rng.randint(0, 12))) for _ in range(200 if quick else 2000)]
     for n in (list(range(13, 140)) + [255, 256, 257, 511, 512, 513, 1023, 1024, 1025] + ([] if quick else list(range(140, 600)) + [4095, 4096, 4097])):
